@@ -220,4 +220,3 @@ func isEventTs(v ssa.Value) bool {
 	phi, ok := v.(*ssa.Phi)
 	return ok && phi.Comment == "eventTsNs"
 }
-
